@@ -42,7 +42,13 @@ struct X {
     }
     vk::drain();
   }
-  void ev_write_done() { auto* s = vk::pending_write(); if (!s || stopped) vk_assume(0); w->finish_write(s, s->wdata.size(), {}); vk::drain(); }
+  // the transport write completes; its completion handler runs at once, or stays queued while the next event happens
+  // (e.g. cancel() called between the completion of the write and the execution of its handler)
+  void ev_write_done() {
+    auto* s = vk::pending_write(); if (!s || stopped) vk_assume(0);
+    w->finish_write(s, s->wdata.size(), {});
+    if (vk_choose(2)) vk::drain(); else vk_reach("completion-left-queued");
+  }
   // the broker answers the oldest request it has received and not answered yet
   void ev_answer() {
     if (stopped || !w->connected()) vk_assume(0);
@@ -135,7 +141,8 @@ extern "C" void h_cancel(void) {
       default: x->ev_reconnect(); break;
     }
     vk_event(10 + ev, w->nops);
-    x->check();
+    if (ev != 1) vk::drain();
+    if (all_quiet()) x->check();
   }
   // restart: after a stop the client can be run again and serves requests
   if (x->stopped && !x->destroyed && x->stop_kind != 2 && w->run_done == 1) {
